@@ -364,7 +364,7 @@ theorem profilesLoopC_fst (ts) : (profilesLoopC ts).1 = profilesLoop ts := by
     rw [profilesLoop_ok t ts p r2 h0 h1]
     simp only [eatWsC_fst] at ih ⊢
     rw [ih]
-    rcases profilesLoop (eatWs r2) with e | ⟨m, r3⟩ <;> rfl
+    all_goals (rcases profilesLoop (eatWs r2) with e | ⟨m, r3⟩ <;> rfl)
   case case4 t ts h0 => rw [profilesLoop]; simp [h0]
 
 /-- the restriction lists: on success rounds + tokens left ≤ tokens, on failure rounds ≤ tokens + 1 -/
